@@ -78,11 +78,16 @@ class SamplingCartesianGridLOS(Model):
             distances=self.distances,
             shape=jnp.array(shape),
         )
+        # One integral per line of sight; the last axis holds the coordinates
+        out_shape = jnp.broadcast_shapes(self.start.shape, self.end.shape)[:-1]
         super().__init__(
-            domain=ShapeWithDtype(shape, dtype), target=ShapeWithDtype(end.shape, dtype)
+            domain=ShapeWithDtype(shape, dtype), target=ShapeWithDtype(out_shape, dtype)
         )
 
     def __call__(self, x):
+        if self.start.ndim == 1 and self.end.ndim == 1:
+            # A single line of sight: nothing to map over
+            return self._los(x, self.start, self.end)
         in_axes = (None, 0, 0)
         if self.start.ndim < self.end.ndim:
             in_axes = (None, None, 0)
